@@ -37,7 +37,7 @@ def vocabulary(arch):
         if m:
             toks += [a.replace('\\"', '"').replace("\\\\", "\\") for a, b in re.findall(r'\("((?:[^"\\]|\\.)*)", "((?:[^"\\]|\\.)*)"\)', m.group(1))]
     toks = [t for t in toks if t not in ("@macro", "@MACRO", "@include", "@INCLUDE", "@incbin", "@INCBIN")]
-    toks += ["0", "1", "2", "7", "255", "256", "4096", "$ff", "%101", '"s"', '""', "'c'", "lbl", ".loc", "g.l", "MAC0", "MAC1", "MAC2 3, {4 5}", "\n", "\n", "\n", ";c\n", ",", ","]
+    toks += ["0", "1", "2", "7", "255", "256", "4096", "$ff", "%101", '"s"', '""', "'c'", "lbl", ".loc", "g.l", "MAC0", "MAC1", "MAC2", "MAC2 3, {4 5}", "MAC1 {}", "MAC2 {}, {}", "{}", "{ }", "{{}}", "'é€'", '"é"', "\n", "\n", "\n", ";c\n", ",", ","]
     return toks
 
 
@@ -86,6 +86,28 @@ def run(tier, seed):
         arch = rng.choice(["6502", "z80", "sm83"])
         toks = [rng.choice(vocab[arch]) for _ in range(rng.randint(1, 30))]
         cases.append((arch, (header + " ".join(toks) + "\n").encode(), rng.choice(["", "export=json"]), "tokens"))
+    # literal forms and macro arguments at their extremes (lengths in characters vs bytes, escapes,
+    # empty and nested brace groups): all short combinations
+    import itertools
+    pieces = ["a", "é", "€", "😀", "\\$ff", "\\$41", "\\n", "\\\\", "\\'"]
+    for n in range(0, 6):
+        combos = list(itertools.product(pieces, repeat=n))
+        if n > 3:
+            combos = rng.sample(combos, 400 if tier == "quick" else 6000)
+        for cmb in combos:
+            body = "".join(cmb)
+            arch = rng.choice(["6502", "z80", "sm83"])
+            cases.append((arch, f"@db '{body}'\n".encode(), "", "literals"))
+            if n <= 3 or rng.random() < 0.3:
+                cases.append((arch, ('@db "' + body.replace("\\'", '\\"') + '"\n').encode(), "", "literals"))
+    argp = ["{}", "{ }", "{{}}", "{{ }}", "{,}", "5", "{5}", "{5 6}", "{{5}}", '"s"', "{@db 1}", "{\n}", "", "{", "}", "MAC0", "{MAC0}", "{MAC1 {}}"]
+    for a in argp:
+        for arch in ("6502", "z80", "sm83"):
+            cases.append((arch, (header + f"MAC1 {a}\n@db 9\n").encode(), "", "macro-args"))
+            for b in argp:
+                cases.append((arch, (header + f"MAC2 {a}, {b}\n@db 9\n").encode(), "", "macro-args"))
+    for a in argp:
+        cases.append(("6502", (header + f"@each T, {a}\n@db T\n@endeach\n@string {a}\n@label {a}\n").encode(), "", "macro-args"))
     faults = ["@endif\n", "@endmacro\n", "@endeach\n", "@endstruct\n", "}\n", "{\n", "@if 0\n", "@defn Z, Z\n", "@db 1/0\n", "Q: Q:\n", '@meta "@SIZEOF" "x"\n', "@each T, {\n", "@struct\n", "\\\n"]
     for _ in range(3000 if tier == "quick" else 60000):
         arch = rng.choice(["6502", "z80", "sm83"])
